@@ -1,6 +1,7 @@
 import Uhppote.Model.Events
 import Uhppote.Gen.Messages
 import Uhppote.Props.C04
+import Uhppote.Props.C03
 /-! # C10 — the event listener delivers every valid event once, in order, and nothing else (partial)
 
 `Model.Events.listenTrace` is the handler of `uhppote.listen` followed by the status mapping of
@@ -70,5 +71,12 @@ theorem C10_event_has_no_views :
       | .at _ .mac _ | .at _ .ipv4 _ | .at _ .macAddress _ => false
       | _ => true) = true ∧
     ((Gen.Messages.all.lookup "GetStatusResponse").getD []).leaves.length = 25 := by decide
+
+/-- T5 obligation: the receive buffer of `Listen` is larger than a message, so an over-long datagram (a valid event followed by more bytes) is seen as over-long and hence is an error callback, never an event
+    (`C10_wrong_length_is_error` applied to what the buffer holds, `C03.C03_length_visible`) -/
+theorem C10_receive_buffer : (Gen.Driver.bufSizes.lookup "Listen").map (fun n => decide (64 < n)) = some true := by decide
+
+theorem C10_overlong_seen (n : Nat) (h : 64 < n) (d : Bytes) (hd : d.length ≠ 64) : (received n d).length ≠ 64 :=
+  fun hc => hd ((C03.C03_length_visible n h 0 d).1.1 hc)
 
 end Uhppote.Props.C10
